@@ -175,6 +175,53 @@ def find_functions(m):
     return res
 
 
+BASELINE = {}
+LOOPS_SEEN = {}
+
+
+def load_baseline():
+    path = os.environ.get("VERIF_LOOP_BASELINE") or os.path.join(os.path.dirname(os.path.dirname(os.path.abspath(__file__))), "contracts", "loop_baseline.json")
+    if os.path.exists(path) and not os.environ.get("VERIF_NO_LOOP_BASELINE"):
+        BASELINE.update(json.load(open(path)))
+
+
+def loop_ordinals(base, cur):
+    """1-based ordinals for the loops `cur` (condition texts, textual order) of one function."""
+    if base is None:
+        return list(range(1, len(cur) + 1))
+    n, m = len(base), len(cur)
+    L = [[0] * (m + 1) for _ in range(n + 1)]
+    for i in range(n - 1, -1, -1):
+        for j in range(m - 1, -1, -1):
+            L[i][j] = L[i + 1][j + 1] + 1 if base[i] == cur[j] else max(L[i + 1][j], L[i][j + 1])
+    pairs = []
+    i = j = 0
+    while i < n and j < m:
+        if base[i] == cur[j]:
+            pairs.append((i, j))
+            i += 1
+            j += 1
+        elif L[i + 1][j] >= L[i][j + 1]:
+            i += 1
+        else:
+            j += 1
+    ordn = {}
+    anchors = [(-1, -1)] + pairs + [(n, m)]
+    for (a, b), (c, d) in zip(anchors, anchors[1:]):
+        gb, gc = list(range(a + 1, c)), list(range(b + 1, d))
+        if len(gb) == len(gc):      # same number of unmatched loops between two anchors: the loops were edited, not added
+            for x, y in zip(gb, gc):
+                ordn[y] = x + 1
+    for (i, j) in pairs:
+        ordn[j] = i + 1
+    new = 0
+    for j in range(m):
+        if j not in ordn:
+            new += 1
+            ordn[j] = 100 + new
+    return [ordn[j] for j in range(m)]
+
+
 def instrument_text(text, fname):
     m = mask_source(text)
     funcs = find_functions(m)
@@ -195,16 +242,30 @@ def instrument_text(text, fname):
             pd[idx] = d
             if ch == ")":
                 d -= 1
-        # loops
-        nloop = 0
+        # loops: ordinals come from the committed baseline (contracts/loop_baseline.json) when the function is known
+        # there: a loop whose condition text matches a baseline loop keeps that loop's ordinal even if a change
+        # inserts or removes OTHER loops; loops with no counterpart get ordinals 101, 102, ... (no contract refers to them)
+        found = []
         for mo in re.finditer(r"\b(for|while)\b", body):
             kw = mo.start()
             p = skip_ws(body, mo.end())
             if p >= len(body) or body[p] != "(":
                 raise Break("%s: loop keyword without ( in %s" % (fname, name))
             q = match_forward(body, p, "(", ")")
+            otext = text[lb + p + 1:lb + q]
+            if mo.group(1) == "for":
+                semis = [k for k in range(p + 1, q) if body[k] == ";" and pd[k] == pd[p]]
+                if len(semis) == 2:
+                    otext = text[lb + semis[0] + 1:lb + semis[1]]
+            found.append((mo, "".join(otext.split())))
+        slugs = [sl for (_mo, sl) in found]
+        LOOPS_SEEN["%s::%s" % (os.path.basename(fname), name)] = slugs
+        ordinals = loop_ordinals(BASELINE.get("%s::%s" % (os.path.basename(fname), name)), slugs)
+        for (mo, _sl), nloop in zip(found, ordinals):
+            kw = mo.start()
+            p = skip_ws(body, mo.end())
+            q = match_forward(body, p, "(", ")")
             b = skip_ws(body, q + 1)
-            nloop += 1
             tag = "%s_%d" % (name, nloop)
             if b >= len(body) or body[b] != "{":
                 # unbraced loop body (not the repository's style, but a change may introduce one):
@@ -304,6 +365,7 @@ def main():
         return 2
     outdir = sys.argv[1]
     allpoints = {}
+    load_baseline()
     try:
         for f in sys.argv[2:]:
             text = open(f, encoding="utf-8", errors="surrogateescape").read()
@@ -327,6 +389,8 @@ def main():
                 fh.write("#ifndef %s\n#define %s\n#endif\n" % (p, p))
     with open(os.path.join(outdir, "verif_points.json"), "w") as fh:
         json.dump(allpoints, fh, indent=0)
+    with open(os.path.join(outdir, "verif_loops.json"), "w") as fh:
+        json.dump(LOOPS_SEEN, fh, indent=0, sort_keys=True)
     return 0
 
 
